@@ -16,6 +16,7 @@ import gc
 import heapq
 import multiprocessing as mp
 import os
+import sys
 import time as _time
 from asyncio import events
 from dataclasses import dataclass, field
@@ -200,6 +201,8 @@ class VLoop(asyncio.BaseEventLoop):
         _current = self
         prev_loop = events._get_running_loop()
         events._set_running_loop(self)
+        old_hooks = sys.get_asyncgen_hooks()
+        sys.set_asyncgen_hooks(firstiter=self._asyncgen_firstiter_hook, finalizer=self._asyncgen_finalizer_hook)
         try:
             task = self.create_task(coro, name='main')
             while not task.done():
@@ -213,6 +216,7 @@ class VLoop(asyncio.BaseEventLoop):
                 return None, asyncio.CancelledError()
             return (task.result(), None) if task.exception() is None else (None, task.exception())
         finally:
+            sys.set_asyncgen_hooks(*old_hooks)
             events._set_running_loop(prev_loop)
             _current = prev
 
@@ -258,6 +262,11 @@ class VLoop(asyncio.BaseEventLoop):
         finally:
             events._set_running_loop(prev_loop)
             _current = prev
+        if self._asyncgens:
+            try:
+                self.run(self.shutdown_asyncgens(), max_steps=self.steps + 10000)
+            except Exception:  # noqa: BLE001
+                pass
         gc.collect(1)
         errs = list(self.errors)
         self._vf_tasks.clear()
